@@ -122,6 +122,12 @@ pub struct PayModel {
     /// over the transactional cloud store (prepare / commit after every request)
     #[serde(default)]
     pub cloud: bool,
+    /// the node has *issued* invoices (it is the payee) for both hashes: H1 for the full amount, H2
+    /// for less than a satoshi; an issued invoice is no approval to pay, and incoming HTLCs that
+    /// fulfil it (also one that arrives together with an outgoing HTLC of the same value) must not
+    /// make outgoing value pass
+    #[serde(default)]
+    pub issued: bool,
 }
 
 pub fn pc_content(pc: PC) -> Content {
@@ -283,7 +289,7 @@ impl Model for PayModel {
     }
 
     fn name(&self) -> String {
-        format!("payflow(ops<={},contents={:?},k={}{}{}{}{})", self.max_ops, self.contents, self.k, if self.strict { ",enforce_balance" } else { "" }, if self.monitors { ",monitors" } else { "" }, if self.holder_letters { "" } else { ",cp-side-only" }, if self.locked_prefix { ",first-part-locked-in" } else { "" }) + if self.declined { ",approval-declined-by-velocity" } else { "" } + if self.incoming_prefix { ",incoming-locked-in" } else { "" } + if self.invoice { ",bolt11-invoice" } else { "" } + if self.phase1 { ",raw-tx-entry-points" } else { "" } + if self.prune { ",prune-beat" } else { "" } + if self.cloud { ",cloud-store" } else { "" }
+        format!("payflow(ops<={},contents={:?},k={}{}{}{}{})", self.max_ops, self.contents, self.k, if self.strict { ",enforce_balance" } else { "" }, if self.monitors { ",monitors" } else { "" }, if self.holder_letters { "" } else { ",cp-side-only" }, if self.locked_prefix { ",first-part-locked-in" } else { "" }) + if self.declined { ",approval-declined-by-velocity" } else { "" } + if self.incoming_prefix { ",incoming-locked-in" } else { "" } + if self.invoice { ",bolt11-invoice" } else { "" } + if self.phase1 { ",raw-tx-entry-points" } else { "" } + if self.prune { ",prune-beat" } else { "" } + if self.cloud { ",cloud-store" } else { "" } + if self.issued { ",invoices-issued-for-both-hashes" } else { "" }
     }
 
     fn init(&self) -> PState {
@@ -310,6 +316,27 @@ impl Model for PayModel {
             assert!(r.is_ok(), "sign cp 0: {}", r.tag());
             ghost.chans.insert(d, ChanLedger { cur_holder: Some(PC::E), pending_holder: None, cur_cp: Some(PC::E) });
             f.insert(d, fu);
+        }
+        if self.issued {
+            use lightning_signer::bitcoin::hashes::sha256::Hash as Sha256Hash;
+            use lightning_signer::bitcoin::hashes::Hash;
+            use lightning_signer::lightning::types::payment::PaymentSecret;
+            use lightning_signer::lightning_invoice::{Currency, InvoiceBuilder};
+            for (x, amt) in [(1u8, A_SAT * 1000), (2, 500)] {
+                let raw = InvoiceBuilder::new(Currency::Regtest)
+                    .description("issued".into())
+                    .payment_hash(Sha256Hash::from_byte_array(pay_hash(x).0))
+                    .payment_secret(PaymentSecret([x + 100; 32]))
+                    .duration_since_epoch(std::time::Duration::from_secs(START_TIME))
+                    .expiry_time(std::time::Duration::from_secs(86_400))
+                    .min_final_cltv_expiry_delta(144)
+                    .amount_milli_satoshis(amt)
+                    .build_raw()
+                    .unwrap();
+                let node = w.node.clone();
+                let r = call(move || node.sign_bolt11_invoice(raw.clone()).map(|_| ()).map_err(|e| status_kind(&e)));
+                assert!(r.is_ok(), "issue invoice for hash {}: {}", x, r.tag());
+            }
         }
         let mut s = PState { w: Some(w), f, ghost, dead: false, nops: 0 };
         if self.locked_prefix {
@@ -589,31 +616,36 @@ pub struct PayRun {
 pub fn explore(tier: Tier, monitors: bool, wall_s: f64) -> PayRun {
     let models_cfg: Vec<PayModel> = match (tier, monitors) {
         (Tier::Quick, false) => vec![
-            PayModel { max_ops: 4, contents: vec![PC::E, PC::Oh, PC::O1, PC::O2, PC::I1], k: 2, monitors, strict: false, holder_letters: true, locked_prefix: false, declined: false, incoming_prefix: false, invoice: false, phase1: false, prune: false, cloud: false },
-            PayModel { max_ops: 6, contents: vec![PC::Oh, PC::O1], k: 3, monitors, strict: false, holder_letters: false, locked_prefix: false, declined: false, incoming_prefix: false, invoice: false, phase1: false, prune: false, cloud: false },
-            PayModel { max_ops: 3, contents: vec![PC::E, PC::Oh, PC::O1, PC::O1x2], k: 3, monitors, strict: false, holder_letters: true, locked_prefix: true, declined: false, incoming_prefix: false, invoice: false, phase1: false, prune: false, cloud: false },
-            PayModel { max_ops: 3, contents: vec![PC::E, PC::Oh, PC::O1, PC::O2], k: 2, monitors, strict: false, holder_letters: true, locked_prefix: false, declined: true, incoming_prefix: false, invoice: false, phase1: false, prune: false, cloud: false },
-            PayModel { max_ops: 3, contents: vec![PC::E, PC::O1, PC::Ox, PC::I1], k: 3, monitors, strict: false, holder_letters: true, locked_prefix: false, declined: false, incoming_prefix: true, invoice: false, phase1: false, prune: false, cloud: false },
+            PayModel { max_ops: 4, contents: vec![PC::E, PC::Oh, PC::O1, PC::O2, PC::I1], k: 2, monitors, strict: false, holder_letters: true, locked_prefix: false, declined: false, incoming_prefix: false, invoice: false, phase1: false, prune: false, cloud: false, issued: false },
+            PayModel { max_ops: 6, contents: vec![PC::Oh, PC::O1], k: 3, monitors, strict: false, holder_letters: false, locked_prefix: false, declined: false, incoming_prefix: false, invoice: false, phase1: false, prune: false, cloud: false, issued: false },
+            PayModel { max_ops: 3, contents: vec![PC::E, PC::Oh, PC::O1, PC::O1x2], k: 3, monitors, strict: false, holder_letters: true, locked_prefix: true, declined: false, incoming_prefix: false, invoice: false, phase1: false, prune: false, cloud: false, issued: false },
+            PayModel { max_ops: 3, contents: vec![PC::E, PC::Oh, PC::O1, PC::O2], k: 2, monitors, strict: false, holder_letters: true, locked_prefix: false, declined: true, incoming_prefix: false, invoice: false, phase1: false, prune: false, cloud: false, issued: false },
+            PayModel { max_ops: 3, contents: vec![PC::E, PC::O1, PC::Ox, PC::I1], k: 3, monitors, strict: false, holder_letters: true, locked_prefix: false, declined: false, incoming_prefix: true, invoice: false, phase1: false, prune: false, cloud: false, issued: false },
             // approval by a BOLT-11 invoice, updates through the raw-transaction entry points
-            PayModel { max_ops: 4, contents: vec![PC::O1, PC::Ox, PC::O2], k: 2, monitors, strict: false, holder_letters: true, locked_prefix: false, declined: false, incoming_prefix: false, invoice: true, phase1: true, prune: false, cloud: false },
-            PayModel { max_ops: 6, contents: vec![PC::Oh, PC::O1], k: 3, monitors, strict: false, holder_letters: false, locked_prefix: false, declined: false, incoming_prefix: false, invoice: true, phase1: true, prune: false, cloud: false },
+            PayModel { max_ops: 4, contents: vec![PC::O1, PC::Ox, PC::O2], k: 2, monitors, strict: false, holder_letters: true, locked_prefix: false, declined: false, incoming_prefix: false, invoice: true, phase1: true, prune: false, cloud: false, issued: false },
+            PayModel { max_ops: 6, contents: vec![PC::Oh, PC::O1], k: 3, monitors, strict: false, holder_letters: false, locked_prefix: false, declined: false, incoming_prefix: false, invoice: true, phase1: true, prune: false, cloud: false, issued: false },
             // time passes, heartbeats prune expired approvals, the approval is asked for again
-            PayModel { max_ops: 5, contents: vec![PC::E, PC::O1], k: 3, monitors, strict: false, holder_letters: false, locked_prefix: false, declined: false, incoming_prefix: false, invoice: false, phase1: false, prune: true, cloud: false },
-            PayModel { max_ops: 5, contents: vec![PC::E, PC::O1], k: 3, monitors, strict: false, holder_letters: false, locked_prefix: false, declined: false, incoming_prefix: false, invoice: true, phase1: false, prune: true, cloud: false },
+            PayModel { max_ops: 5, contents: vec![PC::E, PC::O1], k: 3, monitors, strict: false, holder_letters: false, locked_prefix: false, declined: false, incoming_prefix: false, invoice: false, phase1: false, prune: true, cloud: false, issued: false },
+            PayModel { max_ops: 5, contents: vec![PC::E, PC::O1], k: 3, monitors, strict: false, holder_letters: false, locked_prefix: false, declined: false, incoming_prefix: false, invoice: true, phase1: false, prune: true, cloud: false, issued: false },
+            // the node is also the payee of invoices it issued for both hashes
+            PayModel { max_ops: 4, contents: vec![PC::O1, PC::O2, PC::I1, PC::I2O2], k: 2, monitors, strict: false, holder_letters: true, locked_prefix: false, declined: false, incoming_prefix: false, invoice: false, phase1: false, prune: false, cloud: false, issued: true },
+            PayModel { max_ops: 4, contents: vec![PC::O1, PC::O2, PC::I1, PC::I2O2], k: 2, monitors, strict: true, holder_letters: true, locked_prefix: false, declined: false, incoming_prefix: false, invoice: false, phase1: false, prune: false, cloud: false, issued: true },
         ],
         (Tier::Quick, true) => vec![
-            PayModel { max_ops: 3, contents: vec![PC::E, PC::O1, PC::O2, PC::Ox], k: 2, monitors, strict: false, holder_letters: true, locked_prefix: false, declined: false, incoming_prefix: false, invoice: false, phase1: false, prune: false, cloud: false },
-            PayModel { max_ops: 3, contents: vec![PC::O1, PC::O2], k: 2, monitors, strict: false, holder_letters: true, locked_prefix: false, declined: false, incoming_prefix: false, invoice: true, phase1: true, prune: true, cloud: true },
+            PayModel { max_ops: 3, contents: vec![PC::E, PC::O1, PC::O2, PC::Ox], k: 2, monitors, strict: false, holder_letters: true, locked_prefix: false, declined: false, incoming_prefix: false, invoice: false, phase1: false, prune: false, cloud: false, issued: false },
+            PayModel { max_ops: 3, contents: vec![PC::O1, PC::O2], k: 2, monitors, strict: false, holder_letters: true, locked_prefix: false, declined: false, incoming_prefix: false, invoice: true, phase1: true, prune: true, cloud: true, issued: false },
         ],
         (Tier::Thorough, _) => vec![
-            PayModel { max_ops: 6, contents: vec![PC::E, PC::Oh, PC::O1, PC::Ox, PC::O2, PC::I1, PC::I2O2, PC::O1x2], k: 2, monitors, strict: false, holder_letters: true, locked_prefix: false, declined: false, incoming_prefix: false, invoice: false, phase1: false, prune: false, cloud: false },
-            PayModel { max_ops: 5, contents: vec![PC::E, PC::Oh, PC::O1, PC::O2, PC::I1], k: 2, monitors, strict: true, holder_letters: true, locked_prefix: false, declined: false, incoming_prefix: false, invoice: false, phase1: false, prune: false, cloud: false },
-            PayModel { max_ops: 5, contents: vec![PC::E, PC::Oh, PC::O1, PC::Ox, PC::O1x2, PC::I1], k: 3, monitors, strict: false, holder_letters: true, locked_prefix: true, declined: false, incoming_prefix: false, invoice: false, phase1: false, prune: false, cloud: false },
-            PayModel { max_ops: 5, contents: vec![PC::E, PC::Oh, PC::O1, PC::O2, PC::I1], k: 2, monitors, strict: false, holder_letters: true, locked_prefix: false, declined: true, incoming_prefix: false, invoice: false, phase1: false, prune: false, cloud: false },
-            PayModel { max_ops: 5, contents: vec![PC::E, PC::Oh, PC::O1, PC::Ox, PC::O1x2, PC::I1], k: 3, monitors, strict: false, holder_letters: true, locked_prefix: false, declined: false, incoming_prefix: true, invoice: false, phase1: false, prune: false, cloud: false },
-            PayModel { max_ops: 5, contents: vec![PC::E, PC::Oh, PC::O1, PC::Ox, PC::O2, PC::I1], k: 2, monitors, strict: false, holder_letters: true, locked_prefix: false, declined: false, incoming_prefix: false, invoice: true, phase1: true, prune: false, cloud: false },
-            PayModel { max_ops: 6, contents: vec![PC::E, PC::Oh, PC::O1], k: 3, monitors, strict: false, holder_letters: true, locked_prefix: false, declined: false, incoming_prefix: false, invoice: false, phase1: false, prune: true, cloud: false },
-            PayModel { max_ops: 6, contents: vec![PC::E, PC::Oh, PC::O1], k: 3, monitors, strict: false, holder_letters: true, locked_prefix: false, declined: false, incoming_prefix: false, invoice: true, phase1: false, prune: true, cloud: false },
+            PayModel { max_ops: 6, contents: vec![PC::E, PC::Oh, PC::O1, PC::Ox, PC::O2, PC::I1, PC::I2O2, PC::O1x2], k: 2, monitors, strict: false, holder_letters: true, locked_prefix: false, declined: false, incoming_prefix: false, invoice: false, phase1: false, prune: false, cloud: false, issued: false },
+            PayModel { max_ops: 5, contents: vec![PC::E, PC::Oh, PC::O1, PC::O2, PC::I1], k: 2, monitors, strict: true, holder_letters: true, locked_prefix: false, declined: false, incoming_prefix: false, invoice: false, phase1: false, prune: false, cloud: false, issued: false },
+            PayModel { max_ops: 5, contents: vec![PC::E, PC::Oh, PC::O1, PC::Ox, PC::O1x2, PC::I1], k: 3, monitors, strict: false, holder_letters: true, locked_prefix: true, declined: false, incoming_prefix: false, invoice: false, phase1: false, prune: false, cloud: false, issued: false },
+            PayModel { max_ops: 5, contents: vec![PC::E, PC::Oh, PC::O1, PC::O2, PC::I1], k: 2, monitors, strict: false, holder_letters: true, locked_prefix: false, declined: true, incoming_prefix: false, invoice: false, phase1: false, prune: false, cloud: false, issued: false },
+            PayModel { max_ops: 5, contents: vec![PC::E, PC::Oh, PC::O1, PC::Ox, PC::O1x2, PC::I1], k: 3, monitors, strict: false, holder_letters: true, locked_prefix: false, declined: false, incoming_prefix: true, invoice: false, phase1: false, prune: false, cloud: false, issued: false },
+            PayModel { max_ops: 5, contents: vec![PC::E, PC::Oh, PC::O1, PC::Ox, PC::O2, PC::I1], k: 2, monitors, strict: false, holder_letters: true, locked_prefix: false, declined: false, incoming_prefix: false, invoice: true, phase1: true, prune: false, cloud: false, issued: false },
+            PayModel { max_ops: 6, contents: vec![PC::E, PC::Oh, PC::O1], k: 3, monitors, strict: false, holder_letters: true, locked_prefix: false, declined: false, incoming_prefix: false, invoice: false, phase1: false, prune: true, cloud: false, issued: false },
+            PayModel { max_ops: 6, contents: vec![PC::E, PC::Oh, PC::O1], k: 3, monitors, strict: false, holder_letters: true, locked_prefix: false, declined: false, incoming_prefix: false, invoice: true, phase1: false, prune: true, cloud: false, issued: false },
+            PayModel { max_ops: 5, contents: vec![PC::E, PC::O1, PC::Ox, PC::O2, PC::I1, PC::I2O2], k: 2, monitors, strict: false, holder_letters: true, locked_prefix: false, declined: false, incoming_prefix: false, invoice: false, phase1: false, prune: true, cloud: false, issued: true },
+            PayModel { max_ops: 5, contents: vec![PC::E, PC::O1, PC::Ox, PC::O2, PC::I1, PC::I2O2], k: 2, monitors, strict: true, holder_letters: true, locked_prefix: false, declined: false, incoming_prefix: false, invoice: false, phase1: false, prune: false, cloud: false, issued: true },
         ],
     };
     let mut stats = BfsStats { closed: true, ..Default::default() };
